@@ -24,12 +24,12 @@ CONFIG = {
     ],
     "partial": [
         "C18_reflect_total / C18_cache_schema_total: totality for all descriptor sets satisfying wf_total (enums non-empty; enum split names apart from message / oneof split names)",
-        "C18_reflect_ok_guarantees (wf_keys; names under json_ok) and C18_reflect_consistent (wf_paths = wf_keys + json_ok + distinct field numbers per message): distinct keys, no placeholder, known scalar formats, closed references, every proto field path resolving to a field of the matching kind are theorems for every successful reflection; uniqueness of property names is proved only RELATIVE to the hypothesis that the JSON names of a message's fields and exposed oneofs are distinct (the reader introduces no duplicate), which real inputs can violate; C18_flatten_graph_acyclic (no hypothesis) and C18_client_properties_terminate (wf_keys): the flatten graph of every reflected set is acyclic and ClientProperties of every entry returns within fuel |S|+1 without a failed type assertion; codec usability (codec_classes: newPropSet / buildProperty over every reflected message) is an executable predicate compared with the real codec on every case, not a theorem",
+        "C18_reflect_ok_guarantees (wf_keys; names under json_ok) and C18_reflect_consistent (wf_paths = wf_keys + json_ok + distinct field numbers per message): distinct keys, no placeholder, known scalar formats, closed references, every proto field path resolving to a field of the matching kind are theorems for every successful reflection; uniqueness of property names is proved only RELATIVE to the hypothesis that the JSON names of a message's fields and exposed oneofs are distinct (the reader introduces no duplicate), which real inputs can violate; C18_flatten_graph_acyclic (no hypothesis) and C18_client_properties_terminate (wf_keys): the flatten graph of every reflected set is acyclic and ClientProperties of every entry returns within fuel |S|+1 without a failed type assertion; C18_prop_sets_build (wf_keys + distinct field numbers): newPropSet succeeds on every reflected message type (empty message encodable / decodable); C18_codec_usable_on_supported: codec_classes = (0,0) for every message whose client properties are of kinds the codec has a factory for (supported_b excludes exactly the known findings: any-typed / container items of arrays and maps, Struct); C18_full_on_wf_paths combines all clauses under wf_paths. The model of the codec stops at factory construction (newPropSet / buildProperty); encoding and decoding of values belong to C01/C06/C08 and are exercised here by the harness only",
     ],
 }
 
 MANIFEST = {
     "text": "Theorems over a Gallina model of the proto-to-J5 schema reader (SchemaSetFromFiles / SchemaCache.Schema with placeholder recursion, all of buildScalarType / buildFromStringProto / wktSchema / buildEnum / messageProperties incl. exposed oneofs, checkFlattenCycle, ClientProperties, newPropSet / buildProperty), for all abstract proto3 descriptor sets with arbitrary annotation trees.",
-    "note": "Proved for all descriptor sets with non-empty enums and no enum/message split-name collision: the reader (incl. SchemaCache over any call history) never panics and never exhausts fuel |messages|+1. Also proved under wf_keys (a hypothesis, not a guarantee of a linked set: split names distinct): a successful reflection has distinct keys, no unlinked placeholder, known scalar formats, closed references; and under json_ok in addition (JSON names of fields and exposed oneofs distinct, again not guaranteed) no duplicate property name is introduced by the reader. Also proved (wf_paths): every recorded proto field path resolves to a field of the matching kind (C18_reflect_consistent). Also proved: the flatten graph of every successfully reflected set is acyclic (no hypothesis) and, under wf_keys, ObjectSchema.ClientProperties returns for every entry (no unbounded recursion, no failed type assertion). Partial: codec usability is checked per case against the real code (model predicate), not proved for all inputs; four refutation witnesses are proved (split-name collision: panic; Struct: codec cannot build; flatten name clash; exposed-oneof / field JSON name clash) and listed as known findings. Entry point with dynamicpb extension values is outside the property (observation only). Trusted: Coq kernel; translator; harness and descriptor dump.",
+    "note": "Proved for all descriptor sets with non-empty enums and no enum/message split-name collision: the reader (incl. SchemaCache over any call history) never panics and never exhausts fuel |messages|+1. Also proved under wf_keys (a hypothesis, not a guarantee of a linked set: split names distinct): a successful reflection has distinct keys, no unlinked placeholder, known scalar formats, closed references; and under json_ok in addition (JSON names of fields and exposed oneofs distinct, again not guaranteed) no duplicate property name is introduced by the reader. Also proved (wf_paths): every recorded proto field path resolves to a field of the matching kind (C18_reflect_consistent). Also proved: the flatten graph of every successfully reflected set is acyclic (no hypothesis) and, under wf_keys, ObjectSchema.ClientProperties returns for every entry (no unbounded recursion, no failed type assertion). Also proved (wf_keys + distinct field numbers): the codec's property set builds for every reflected message type. Also proved: every property of a message within the codec's supported kinds builds (C18_codec_usable_on_supported), and C18_full_on_wf_paths states all clauses together under wf_paths. Partial (not a defect of the proof but of the property): outside wf_paths and outside the supported kinds the clauses fail; these are the refutations and known findings. Codec behaviour below factory construction is checked per case against the real code (model predicate), not proved for all inputs; four refutation witnesses are proved (split-name collision: panic; Struct: codec cannot build; flatten name clash; exposed-oneof / field JSON name clash) and listed as known findings. Entry point with dynamicpb extension values is outside the property (observation only). Trusted: Coq kernel; translator; harness and descriptor dump.",
     "technique": "Rocq/Coq proof (invariant over the placeholder recursion) + regenerated switch-arm tables + in-Coq differential correspondence on generated descriptor sets in crash-isolated workers",
 }
